@@ -11,10 +11,10 @@ RULE = ("cases = strings the reference recogniser proves are NOT derivable from 
         "mutants (delete/insert/replace/transpose/duplicate/case/blank, characters and tokens incl. near-miss "
         "tokens) of generated valid queries, short token sequences, arbitrary Unicode text; oracle = compile() "
         "raises a JSONPathError; non-trivial = a near miss (<= 2 edits from a VALID query); distinct by text. "
-        "VALID and DISPUTED mutants are re-classified and not used here.")
+        "VALID and DISPUTED mutants are re-classified and not used here. The thorough tier adds four coverage-guided atheris campaigns (token dictionary, seeded and empty corpus) whose inputs are classified by the same reference inside the fuzz target.")
 ASSUMPTIONS = ["vlib/ref/abnf.py transcribes RFC 9535 Appendix A and decides membership exactly",
                "DISPUTED inputs are excluded (blank inside singular-query brackets in comparisons, overflowing numbers)"]
-TECHNIQUE = "Hypothesis mutation-based generation of near misses, membership oracle = independent RFC 9535 ABNF recogniser"
+TECHNIQUE = "Hypothesis mutation-based generation of near misses, plus atheris (libFuzzer) campaigns in the thorough tier; membership oracle = independent RFC 9535 ABNF recogniser"
 LEVEL_TEXT = ("Every single/double-edit class of generated valid queries, token sequences and arbitrary text that the "
               "reference recogniser classifies INVALID must make compile() raise a JSONPathError. Sampled.")
 LEVEL_NOTE = "Trusted: vlib/ref/abnf.py (exact set-valued recogniser; self-test against the repository's rejected-query vectors)."
@@ -25,10 +25,15 @@ examine = accept.examine_reject
 def plan(tier, seed):
     if tier == "quick":
         return [{"n": 800} for _ in range(16)]
-    return [{"n": 8000} for _ in range(16)]
+    import os
+    return [{"n": 8000} for _ in range(16)] + [
+        {"mode": "atheris", "runs": int(os.environ.get("VERIF_ATHERIS_RUNS", "600000")), "corpus": "seeded" if i % 2 == 0 else "empty", "idx": i}
+        for i in range(4)]
 
 
 def run_shard(spec, shard):
+    if spec.get("mode") == "atheris":
+        return accept.run_atheris_grammar(spec, shard, examine, "accepted")
     def body(r):
         ast, text, used = accept.base_query(r, shard)
         for _ in range(4):
